@@ -883,8 +883,228 @@ fn gen_t7(rng: &mut Rng) -> Yaml {
     Yaml::Mapping(rule)
 }
 
+/// T9: constructs that line coverage of the engine showed the other strata never reach (measured
+/// with an instrumented build of the simulator, see DESIGN 8.6): needle lists and regex sets under a
+/// `str()` key cast evaluated against numbers and booleans (alone and counted by all()/of()),
+/// float casts on the right-hand side of a comparison and float literals on the left, the
+/// deprecated `string()` alias, a list of mappings under `all(nested)` whose or-group becomes a
+/// matrix evaluated per array element, and index segments below a dotted path (`m.arr[1]`,
+/// `arr[0].a`).
+fn gen_t9(rng: &mut Rng, _k: &Knobs) -> Yaml {
+    let mut det = Mapping::new();
+    let cond: String;
+    match rng.below(7) {
+        4 => {
+            // rows that differ in the case flag of one list only (and in a second field)
+            let f = *rng.pick(&["a", "b"]);
+            let g = *rng.pick(&["c", "d"]);
+            let kind = rng.below(4);
+            let words: Vec<&str> = (0..2 + rng.below(2)).map(|_| *rng.pick(&FAMILY)).collect();
+            let list = |ic: bool| Yaml::Sequence(words.iter().map(|w| ystr(&format!("{}{}", if ic { "i" } else { "" }, match kind { 0 => format!("*{}*", w), 1 => format!("{}*", w), 2 => format!("*{}", w), _ => format!("?{}", w) }))).collect());
+            let first_ic = rng.chance(1, 2);
+            let n = 2 + rng.below(2);
+            let rows: Vec<Yaml> = (0..n)
+                .map(|i| {
+                    let mut m = Mapping::new();
+                    m.insert(ystr(f), list((i % 2 == 0) == first_ic));
+                    m.insert(ystr(g), Yaml::Number(((i + 1) as i64).into()));
+                    Yaml::Mapping(m)
+                })
+                .collect();
+            det.insert(ystr("A"), Yaml::Sequence(rows));
+            cond = (*rng.pick(&["A", "A", "not A", "of(A, 1)", "all(A)"])).to_owned();
+        }
+        5 => {
+            // identifiers that differ in a float literal only
+            let f = *rng.pick(&["a", "b"]);
+            let fl: Vec<f64> = vec![1.5, 2.5, 0.5, 3.25];
+            let n = 2 + rng.below(2);
+            let other = family_pattern(rng, 3, false);
+            let cmp = *rng.pick(&["", ">", "<="]);
+            for (i, name) in ["A", "B", "C"].iter().take(n).enumerate() {
+                let mut m = Mapping::new();
+                if cmp.is_empty() {
+                    m.insert(ystr(f), Yaml::Number(fl[i].into()));
+                } else {
+                    m.insert(ystr(f), ystr(&format!("{}{:?}", cmp, fl[i])));
+                }
+                m.insert(ystr("e"), ystr(&other));
+                det.insert(ystr(*name), Yaml::Mapping(m));
+            }
+            cond = (*rng.pick(&["A and not B", "A or B", "B and not A", "not A and B", "B", "of(B, 1) or A"])).to_owned();
+        }
+        6 => {
+            // keys whose cheap fingerprints collide (equal length, equal 31-polynomial), and keys
+            // made of several words one of which is a number that does not print back as written
+            let collide = ["Aa", "BB", "AaAa", "BBBB", "AaBB", "BBAa"];
+            let wordy = ["Type 03", "v 1.50", "n 10.0", "x 64bit", "Logon Type 3", "a 007"];
+            let pool: &[&str] = if rng.chance(2, 3) { &collide } else { &wordy };
+            let n = 2 + rng.below(2);
+            let mut used: Vec<&str> = vec![];
+            let mut names: Vec<&str> = vec![];
+            for name in ["A", "B", "C"].iter().take(n) {
+                let mut m = Mapping::new();
+                let key = *rng.pick(pool);
+                if used.contains(&key) {
+                    continue;
+                }
+                used.push(key);
+                names.push(*name);
+                let (k1, i1) = (rng.below(5), rng.chance(1, 5));
+                m.insert(ystr(key), ystr(&family_pattern(rng, k1, i1)));
+                det.insert(ystr(*name), Yaml::Mapping(m));
+            }
+            cond = if names.len() >= 2 && rng.chance(2, 3) { format!("{} {} {}", names[0], rng.pick(&["and", "or", "and not"]), names[1]) } else { names[0].to_owned() };
+        }
+        0 => {
+            let f = *rng.pick(&["a", "b", "c"]);
+            let cores = ["1", "5", "15", "51", "0", "true", "ru", "1.5", ".5", "-1", "e"];
+            let n = 2 + rng.below(3);
+            let all_regex = rng.chance(1, 3);
+            let icase_all = rng.chance(1, 4);
+            let items: Vec<Yaml> = (0..n)
+                .map(|_| {
+                    let c = *rng.pick(&cores);
+                    let ic = if icase_all || rng.chance(1, 6) { "i" } else { "" };
+                    let body = if all_regex {
+                        match rng.below(5) {
+                            0 => format!("?^{}", c.replace('.', "\\.")),
+                            1 => format!("?{}$", c.replace('.', "\\.")),
+                            2 => "?\\d5".to_owned(),
+                            3 => "?^\\d+$".to_owned(),
+                            _ => format!("?{}", c.replace('.', "\\.")),
+                        }
+                    } else {
+                        match rng.below(4) {
+                            0 => format!("*{}*", c),
+                            1 => format!("{}*", c),
+                            2 => format!("*{}", c),
+                            _ => {
+                                if c.parse::<f64>().is_ok() || c == "true" {
+                                    format!("'{}'", c)
+                                } else {
+                                    c.to_owned()
+                                }
+                            }
+                        }
+                    };
+                    ystr(&format!("{}{}", ic, body))
+                })
+                .collect();
+            let key = if rng.chance(3, 4) { format!("str({})", f) } else { f.to_owned() };
+            let mut m = Mapping::new();
+            m.insert(ystr(&key), Yaml::Sequence(items));
+            if rng.chance(1, 4) {
+                m.insert(ystr("e"), ystr("foo"));
+            }
+            det.insert(ystr("A"), Yaml::Mapping(m));
+            if rng.chance(1, 3) {
+                let mut b = Mapping::new();
+                b.insert(ystr(&format!("str({})", f)), ystr(*rng.pick(&["*1*", "i*E*", "?^\\d", "'15'", "5*"])));
+                det.insert(ystr("B"), Yaml::Mapping(b));
+                cond = (*rng.pick(&["A and B", "A or B", "all(A) and not B", "of(A, 2) or B", "not A and B"])).to_owned();
+            } else {
+                cond = (*rng.pick(&["A", "not A", "all(A)", "of(A, 1)", "of(A, 2)", "of(A, 3)", "not all(A)", "not of(A, 2)"])).to_owned();
+            }
+        }
+        1 => {
+            let mut m = Mapping::new();
+            m.insert(ystr("e"), ystr("foo"));
+            det.insert(ystr("A"), Yaml::Mapping(m));
+            let op = *rng.pick(&["==", ">", ">=", "<", "<="]);
+            let x = *rng.pick(&["a", "b", "c"]);
+            let y = *rng.pick(&["a", "b", "c"]);
+            let fl = format!("{:?}", rng.pick(&FLOATS).abs());
+            let cmp = match rng.below(6) {
+                0 => format!("flt({}) {} flt({})", x, op, y),
+                1 => format!("{} {} flt({})", fl, op, x),
+                2 => format!("flt({}) {} {}", x, op, fl),
+                3 => format!("string({}) == str({})", x, y),
+                4 => format!("str({}) == string({})", x, y),
+                _ => format!("flt({}) {} flt({}) and {} {} flt({})", x, op, y, fl, rng.pick(&["<", ">="]), y),
+            };
+            cond = match rng.below(5) {
+                0 => cmp,
+                1 => format!("A or {}", cmp),
+                2 => format!("not ({})", cmp),
+                3 => format!("A and not ({})", cmp),
+                _ => format!("{} or int({}) {} int({})", cmp, x, op, y),
+            };
+        }
+        2 => {
+            let nest = *rng.pick(&NEST_FIELDS);
+            let n = 2 + rng.below(3);
+            let third = *rng.pick(&["c", "d"]);
+            let items: Vec<Yaml> = (0..n)
+                .map(|i| {
+                    let mut m = Mapping::new();
+                    let (k1, i1) = (rng.below(5), rng.chance(1, 5));
+                    m.insert(ystr("a"), ystr(&family_pattern(rng, k1, i1)));
+                    let second = if i == n - 1 && rng.chance(1, 2) { third } else { "b" };
+                    let (k2, i2) = (rng.below(5), rng.chance(1, 5));
+                    m.insert(ystr(second), ystr(&family_pattern(rng, k2, i2)));
+                    Yaml::Mapping(m)
+                })
+                .collect();
+            let key = match rng.below(4) {
+                0 | 1 => format!("all({})", nest),
+                2 => format!("of({}, {})", nest, 1 + rng.below(2)),
+                _ => nest.to_owned(),
+            };
+            let mut m = Mapping::new();
+            m.insert(ystr(&key), Yaml::Sequence(items));
+            if rng.chance(1, 4) {
+                m.insert(ystr("e"), ystr("foo"));
+            }
+            det.insert(ystr("A"), Yaml::Mapping(m));
+            cond = (*rng.pick(&["A", "A", "not A", "all(A)", "of(A, 1)"])).to_owned();
+        }
+        _ => {
+            let paths = ["m.arr[1]", "arr[0].a", "n.m.arr[2]", "m.arr[0].b", "arr[1]", "objs.arr[1].c", "arr[2].m.a", "m.arr[1]"];
+            let mut m = Mapping::new();
+            for _ in 0..1 + rng.below(3) {
+                let p = *rng.pick(&paths);
+                let (kind, ic) = (rng.below(5), rng.chance(1, 5));
+                let v = if rng.chance(1, 4) {
+                    Yaml::Sequence((0..2).map(|_| { let (a, b) = (rng.below(4), rng.chance(1, 5)); ystr(&family_pattern(rng, a, b)) }).collect())
+                } else if rng.chance(1, 5) {
+                    Yaml::Number((*rng.pick(&INTS)).into())
+                } else {
+                    ystr(&family_pattern(rng, kind, ic))
+                };
+                let key = match rng.below(8) {
+                    0 => format!("not({})", p),
+                    1 if v.is_sequence() => format!("all({})", p),
+                    2 if v.is_number() => format!("int({})", p),
+                    _ => p.to_owned(),
+                };
+                m.insert(ystr(&key), v);
+            }
+            det.insert(ystr("A"), Yaml::Mapping(m));
+            cond = (*rng.pick(&["A", "A", "not A", "of(A, 1)", "all(A)", "A or int(m.arr[1]) == 3", "A and str(arr[0].a) == str(m.arr[0].b)"])).to_owned();
+        }
+    }
+    det.insert(ystr("condition"), ystr(&cond));
+    let mut rule = Mapping::new();
+    rule.insert(ystr("detection"), Yaml::Mapping(det));
+    rule.insert(ystr("true_positives"), Yaml::Sequence(vec![]));
+    rule.insert(ystr("true_negatives"), Yaml::Sequence(vec![]));
+    Yaml::Mapping(rule)
+}
+
 /// A complete rule as a YAML value (detection + empty example lists).
 pub fn gen_rule(rng: &mut Rng, k: &Knobs) -> Yaml {
+    if !k.has(F_T6) {
+        // decided on a copy of the stream, so that the scenarios that do not become T9 are exactly
+        // the ones the generator produced before this stratum existed
+        let mut probe = rng.clone();
+        probe.next_u64();
+        if probe.chance(1, 11) {
+            let r = gen_t9(&mut probe, k);
+            *rng = probe;
+            return r;
+        }
+    }
     if k.has(F_T6) || rng.chance(1, 150) {
         return gen_t6(rng);
     }
@@ -1015,6 +1235,35 @@ impl Schema {
     }
 }
 
+/// Needles made of digits (or of a boolean's letters), as a `str()` cast meets them: numbers and
+/// booleans whose rendering contains, starts with or ends with the needle.
+fn numeric_needle_values(core: &str, out: &mut Vec<MVal>) {
+    if let Ok(n) = core.parse::<i64>() {
+        out.push(MVal::Int(n));
+        if n >= 0 {
+            out.push(MVal::UInt(n as u64));
+        }
+        out.push(MVal::float(n as f64));
+        out.push(MVal::float(n as f64 + 0.5));
+        for t in [format!("{}5", core), format!("5{}", core), format!("{}{}", core, core)] {
+            if let Ok(m) = t.parse::<i64>() {
+                out.push(MVal::Int(m));
+                if m >= 0 {
+                    out.push(MVal::UInt(m as u64));
+                }
+            }
+        }
+    } else if let Ok(f) = core.parse::<f64>() {
+        out.push(MVal::float(f));
+        out.push(MVal::float(f + 1.0));
+        out.push(MVal::float(-f));
+    }
+    if !core.is_empty() && core.chars().all(|c| c.is_ascii_alphabetic()) && ("true".contains(&core.to_lowercase()) || "false".contains(&core.to_lowercase())) {
+        out.push(MVal::Bool(true));
+        out.push(MVal::Bool(false));
+    }
+}
+
 fn pattern_values(p: &str, out: &mut Vec<MVal>) {
     let s = |x: &str| MVal::Str(x.to_owned());
     let body = p.strip_prefix('i').unwrap_or(p);
@@ -1029,6 +1278,10 @@ fn pattern_values(p: &str, out: &mut Vec<MVal>) {
         }
         let lit: String = re.chars().filter(|c| c.is_alphanumeric()).collect();
         out.push(s(&lit));
+        let digits: String = re.chars().filter(|c| c.is_ascii_digit()).collect();
+        if !digits.is_empty() {
+            numeric_needle_values(&digits, out);
+        }
         for w in ["foo", "bar", "baz", "fo", "o", "x", "b", "a", "7"] {
             if re.contains(w) || re.contains("[a-c]") || re.contains("\\d") || re.contains("ba[rz]") {
                 out.push(s(w));
@@ -1064,6 +1317,12 @@ fn pattern_values(p: &str, out: &mut Vec<MVal>) {
         out.push(s(&format!("x{}x", core)));
         out.push(s(&core.to_uppercase()));
         out.push(s(&core.to_lowercase()));
+    }
+    {
+        let core = body.trim_matches('*').trim_matches('"').trim_matches('\'');
+        if core != p {
+            numeric_needle_values(core, out);
+        }
     }
     out.push(s(p));
     out.push(s(""));
@@ -1208,8 +1467,68 @@ pub fn cond_cast_fields(cond: &str) -> Vec<String> {
 /// original on one thread: whatever the engine remembers between evaluations must tell the two
 /// apart.
 pub fn twin_rule(rule: &Yaml, kind: usize) -> Yaml {
+    // kind 4: the boundary between neighbouring plain needles moved by one character
+    // (`[*ab*, *c*]` -> `[*a*, *bc*]`: same bytes when concatenated, same count, other needles);
+    // kind 5: the letter of every regex escape in the other case (`\d` <-> `\D`, `\w`, `\s`, `\b`)
+    thread_local! { static CARRY: std::cell::RefCell<(usize, Option<char>)> = const { std::cell::RefCell::new((0, None)) }; }
+    CARRY.with(|c| *c.borrow_mut() = (0, None));
+    fn split_plain(p: &str) -> Option<(String, String, String)> {
+        let (flag, body) = match p.strip_prefix('i') {
+            Some(rest) if !rest.is_empty() && (rest.starts_with('*') || rest.ends_with('*')) => ("i", rest),
+            _ => ("", p),
+        };
+        if body.starts_with('?') || body.starts_with(['>', '<', '=', '"', '\'']) || body == "*" {
+            return None;
+        }
+        let pre = if body.starts_with('*') { "*" } else { "" };
+        let suf = if body.len() > 1 && body.ends_with('*') { "*" } else { "" };
+        let core = &body[pre.len()..body.len() - suf.len()];
+        if core.is_empty() || !core.chars().all(|c| c.is_ascii_alphanumeric()) {
+            return None;
+        }
+        Some((format!("{}{}", flag, pre), core.to_owned(), suf.to_owned()))
+    }
     fn walk(v: &Yaml, kind: usize) -> Yaml {
         match v {
+            Yaml::String(p) if kind == 4 => match split_plain(p) {
+                Some((pre, core, suf)) => CARRY.with(|c| {
+                    let mut c = c.borrow_mut();
+                    let idx = c.0;
+                    c.0 += 1;
+                    if idx % 2 == 0 {
+                        if core.len() >= 2 {
+                            c.1 = core.chars().last();
+                            ystr(&format!("{}{}{}", pre, &core[..core.len() - 1], suf))
+                        } else {
+                            c.1 = None;
+                            v.clone()
+                        }
+                    } else {
+                        match c.1.take() {
+                            Some(ch) => ystr(&format!("{}{}{}{}", pre, ch, core, suf)),
+                            None => v.clone(),
+                        }
+                    }
+                }),
+                None => v.clone(),
+            },
+            Yaml::String(p) if kind == 5 => {
+                let body = p.strip_prefix('i').unwrap_or(p);
+                if !body.starts_with('?') {
+                    return v.clone();
+                }
+                let mut out = String::new();
+                let mut esc = false;
+                for ch in p.chars() {
+                    if esc && "dDwWsSbB".contains(ch) {
+                        out.push(if ch.is_ascii_lowercase() { ch.to_ascii_uppercase() } else { ch.to_ascii_lowercase() });
+                    } else {
+                        out.push(ch);
+                    }
+                    esc = ch == '\\' && !esc;
+                }
+                ystr(&out)
+            }
             Yaml::String(p) => match kind {
                 0 => match p.strip_prefix('i') {
                     Some(rest) if !rest.is_empty() => ystr(rest),
